@@ -1,5 +1,5 @@
 (* Pinned statements of C04 (generated once by tools/mkpins.py from coq/props/C04.v, then committed). *)
-From DV Require Import Model.Base Model.Parser Model.Header Model.Readers Spec.NameSpec Proofs.Hoare Proofs.HeaderBits
+From DV Require Import Model.Base Model.Parser Model.Header Model.Readers Spec.NameSpec Spec.RecordSpec Proofs.Hoare Proofs.HeaderBits
   Proofs.SummaryBits Proofs.ReadersLabels Proofs.QuestionSpec props.C04.
 Local Open Scope N_scope.
 Check (C04_flags_word : forall w x i, w < 65536 ->
